@@ -3,6 +3,8 @@ package headers
 import (
 	"encoding/hex"
 	"fmt"
+	"maps"
+	"slices"
 	"strconv"
 	"strings"
 
@@ -160,8 +162,10 @@ func (h *Transport) Unmarshal(v base.HeaderValue) error {
 
 	profileFound := false
 
-	for k, rv := range kvs {
-		v := rv
+	// iterate keys in a fixed order, in order to make the result
+	// independent of map iteration order when keys are in conflict.
+	for _, k := range slices.Sorted(maps.Keys(kvs)) {
+		v := kvs[k]
 
 		switch k {
 		case "RTP/AVP", "RTP/AVP/UDP":
